@@ -5,6 +5,7 @@ package interp
 import (
 	"fmt"
 	"math"
+	"regexp"
 	"sort"
 	"strings"
 	"sync"
@@ -134,6 +135,7 @@ type DocNodeInfo struct {
 	Doc    int    `json:"doc"`
 	Path   string `json:"path"`
 	Prefix string `json:"prefix"`
+	Wrap   bool   `json:"wrap,omitempty"` // this node is the one-element array around its child "0"
 }
 
 // HoleInfo records a symbolic number that was formatted into emitted text.
@@ -167,6 +169,8 @@ type Explorer struct {
 	fnFuel   map[string]int
 	pcDirty  bool
 	params   map[string]int
+	known    map[string]string // variable -> literal, from conjuncts of the form (= var lit)
+	knownPos int
 	s2list    []*Stage2
 	s2results []*S2Result
 	opaqueSrc map[*value]*docNode
@@ -587,4 +591,21 @@ func (e *Explorer) patFacts(pat string, s sym) {
 	m := "(" + internPat(pat) + " " + s.t + ")"
 	e.PC = append(e.PC, "(=> "+m+" (and (bvuge (rlen "+s.t+") #x0000000000000001) (bvule (bvsub (blen "+s.t+") #x0000000000000001) (bvmul #x0000000000000004 (bvsub (rlen "+s.t+") #x0000000000000001)))))")
 	e.addEval(m)
+}
+
+var eqLitRE = regexp.MustCompile(`^\(= ([^ ()]+) (#x[0-9a-f]+)\)$`)
+
+// knownConst scans new path-condition conjuncts of the form (= var #x..) and answers whether
+// a variable is already fixed to a literal.
+func (e *Explorer) knownConst(v string) (string, bool) {
+	if e.known == nil {
+		e.known = map[string]string{}
+	}
+	for ; e.knownPos < len(e.PC); e.knownPos++ {
+		if m := eqLitRE.FindStringSubmatch(e.PC[e.knownPos]); m != nil {
+			e.known[m[1]] = m[2]
+		}
+	}
+	c, ok := e.known[v]
+	return c, ok
 }
